@@ -138,6 +138,11 @@ func panicSite(stack string) string {
 			if i := strings.Index(l, " "); i > 0 {
 				l = l[:i]
 			}
+			if j := strings.LastIndex(l, ":"); j > 0 {
+				var n int
+				fmt.Sscanf(l[j+1:], "%d", &n)
+				l = fmt.Sprintf("%s:%d", l[:j], n-vrt.LineOffset(l[:j]))
+			}
 			return strings.TrimPrefix(l, "/repo/")
 		}
 	}
